@@ -166,7 +166,29 @@ func (m *vfModel) checkContents() {
 
 // histories: index -> op sequence. First all sequences of length 1, then 2, ... (base vfNOps),
 // then pseudo-random longer ones.
+// hand-written histories aimed at the removal mechanics (a removed leaf leaves a placeholder, the
+// root's value is removed and a child promoted, re-adding into an emptied leaf, duplicates)
+var vfHand = [][]int{
+	{0, 2, 6, 13, 12},       // remove a leaf child of the root, then the root's value: a point is still stored
+	{0, 6, 2, 12},           // remove the root's value with two children
+	{0, 6, 13, 12},          // leaf, then root: the tree is empty again
+	{0, 6, 2, 13, 13, 12},   // everything removed, newest first
+	{0, 7, 7, 13, 12},       // chain of duplicates below the root
+	{1, 0, 2, 3, 6, 12, 12}, // centre root with four children, root removed twice
+	{0, 6, 13, 6, 12},       // re-add into the emptied leaf, then remove the root
+	{0, 2, 6, 13, 12, 6},    // the first history followed by an add
+	{0, 0, 0, 12, 12},       // duplicates of the root point
+	{4, 0, 12, 0},           // root on the bound corner
+	{0, 6, 2, 3, 13, 13, 12, 12},
+	{1, 6, 0, 13, 12, 13},
+}
+
+const vfHandBase = 1 << 20
+
 func vfHistory(c int) []int {
+	if c >= vfHandBase {
+		return vfHand[c-vfHandBase]
+	}
 	n := vfNOps
 	for l := 1; l <= 3; l++ {
 		cnt := 1
@@ -230,9 +252,9 @@ func vfD2(p *vfP, q orb.Point) float64 {
 
 func vfC11Find_N(tier int) int {
 	if tier == 0 {
-		return vfNOps + 42
+		return vfNOps + len(vfHand) + 42
 	}
-	return vfNOps + 42 + vfNOps*vfNOps + vfNOps*vfNOps*vfNOps/5 + 500
+	return vfNOps + len(vfHand) + 42 + vfNOps*vfNOps + vfNOps*vfNOps*vfNOps/5 + 500
 }
 
 func vfC11Find_Label(c int) string { return vfHistLabel(vfFindIndex(c)) }
@@ -246,6 +268,10 @@ func vfFindIndex(c int) int {
 		return c
 	}
 	c -= vfNOps
+	if c < len(vfHand) {
+		return vfHandBase + c
+	}
+	c -= len(vfHand)
 	if c < 30 {
 		return vfNOps + (c*7+c/4)%(vfNOps*vfNOps)
 	}
